@@ -22,6 +22,14 @@ Two obligations over the same generated domain (atoms 2-51, v_min < v_max, gamma
     cross-entropy (this is the loss the network "trains towards").  The online distribution is read through the public
     forward (``actor(obs, q=False, log=True)`` and, equally accepted, the log of the clamped ``q=False`` output).
 
+Crashes: the statement quantifies over every support range / reward / batch of the domain, so an exception escaping ``_dqn_loss``
+or ``learn`` there means no projection / no priority exists for that batch: violation ``C18/crash/<ExcType>@<file:function>`` (the
+case goes on with its next batch when that class is excluded - the loss raises before the optimiser step).
+
+Tolerances: conservation 1e-5 (relative to max(1,|v_min|,|v_max|) x mass), cross-entropy 1e-4 relative, each widened by a few units
+of the float32 index error of ``b = (t_z - v_min) / delta_z`` (``index_error_unit``: eps32 (N-1) max(1, max|v| / (v_max - v_min))) -
+without it a narrow support far from zero (v_min=9.66, v_max=9.71) gave a false alarm of 1.1e-5 on the mean.
+
 Noisy layers: NoisyLinear keeps its noise in buffers that only change in ``reset_noise()``, which ``learn`` calls AFTER the
 optimiser step; all reference forward passes are made right before ``learn`` on the same (train-mode) networks and therefore
 see exactly the weights+noise ``learn`` uses.
